@@ -205,7 +205,7 @@ def run(tier, seed):
                     atk = simnet.RawPeer(net, host='10.6.%d.%d' % (sess // 250, sess % 250 + 1)).connect(sn.node)
                     sn.node.step()
                     sn.pump()
-                    greeted = rng.random() < 0.6
+                    greeted = rng.random() < 0.6 or sess % 60 == 7 or sess % 20 == 3      # the sessions with scripted extras are greeted
                     streams = []
                     if greeted:
                         streams.append(('hello', nodeharness.frame(M.MessageHeader(0, 1, 0, 1).serialize() + sn.hello().serialize())))
@@ -217,12 +217,13 @@ def run(tier, seed):
                         elif fresh_tx is not None:
                             streams.append(('valid-tx-without-greeting', nodeharness.frame(
                                 M.MessageHeader(0, 9, 0, 1).serialize() + M.DataMessage(M.DATA_TRANSACTION, fresh_tx).serialize())))
-                    for _ in range(rng.choice([1, 1, 2, 3])):
-                        streams.append(corrupt(rng, payloads))
-                    if greeted and sess % 60 == 7:
-                        streams.append(many_addresses(rng))
+                    # scripted extras go first: a corrupt stream before them would close the connection and they would never be read
                     if greeted and sess % 20 == 3:
                         streams.append(odd_addresses(rng))
+                    if greeted and sess % 60 == 7:
+                        streams.append(many_addresses(rng))
+                    for _ in range(rng.choice([1, 1, 2, 3])):
+                        streams.append(corrupt(rng, payloads))
                     label = '+'.join(s[0].split(':')[0] for s in streams[1 if greeted else 0:])
                     data = b''.join(s[1] for s in streams)
                     # random chunking
